@@ -10,9 +10,11 @@
 //!   expect := XErr class | XPanic class | XItems count hash     (hash over item classes and block lengths)
 //!
 //! All files are written under $VERIF_DIR/.cache/scratch-c43-<pid> (removed before
-//! exit).  The implementation runs in a worker child process: a corrupted offset
-//! can make the allocator abort the process, which the supervisor records as an
-//! oracle failure (and restarts the worker after that case).
+//! exit).  The implementation runs in worker child processes (up to 8; worker j takes
+//! the cases with index = j mod P, the supervisor prints the results in case order,
+//! so (seed, tier, n) replays exactly): a corrupted offset can make the allocator
+//! abort the process, which the supervisor records as an oracle failure (and restarts
+//! that worker after the case).
 use pallas_hardano::storage::immutable::{self, chunk};
 use std::io::{BufRead, BufReader, Write};
 use std::path::{Path, PathBuf};
@@ -104,10 +106,10 @@ impl Scratch {
         let mut want = std::collections::HashSet::new();
         for s in specs {
             let n = format!("{:05}", s.name);
-            let p = prim_bytes(s, bases);
-            let q = sec_bytes(s, bases);
-            self.put(&format!("{}.primary", n), (fnv(&p), p.len()), || p.clone());
-            self.put(&format!("{}.secondary", n), (fnv(&q), q.len()), || q.clone());
+            let pid = match &s.prim { Src::Lit(b) => (fnv(b), b.len()), Src::Real(i, es) => (fnv(coq_edits(es).as_bytes()), 1_000_000 + *i) };
+            let qid = match &s.sec { Src::Lit(b) => (fnv(b), b.len()), Src::Real(i, es) => (fnv(coq_edits(es).as_bytes()), 2_000_000 + *i) };
+            self.put(&format!("{}.primary", n), pid, || prim_bytes(s, bases));
+            self.put(&format!("{}.secondary", n), qid, || sec_bytes(s, bases));
             let cid = (match s.chunk_real { Some(i) => 1000 + i as u64, None => 1 }, s.chunk_len);
             self.put(&format!("{}.chunk", n), cid, || chunk_bytes(s, bases));
             for e in ["primary", "secondary", "chunk"] { want.insert(format!("{}.{}", n, e)); }
@@ -444,7 +446,7 @@ fn damaged(c: &Call) -> &'static str {
     if lit { "synthetic" } else if p && q { "primary+secondary" } else if p { "primary" } else if q { "secondary" } else { "chunk" }
 }
 
-fn worker(a: &Args, scratch: &Path, skip: usize, profile: &str) {
+fn worker(a: &Args, scratch: &Path, skip: usize, part: usize, parts: usize, profile: &str) {
     let bases = load_bases();
     let mut rng = Rng::new(a.seed);
     let thorough = a.tier == "thorough";
@@ -454,8 +456,11 @@ fn worker(a: &Args, scratch: &Path, skip: usize, profile: &str) {
     let _ = std::fs::remove_dir_all(scratch);
     std::fs::create_dir_all(scratch).expect("scratch dir");
     let mut samples = 0;
+    let parent = std::os::unix::process::parent_id();
     for (k, (tag, call, to_model)) in cases.iter().enumerate() {
-        if k < skip { continue; }
+        if k < skip || k % parts != part { continue; }
+        // the supervisor was killed (e.g. a timeout of the check): stop and clean up
+        if k % 64 == part % 64 && std::os::unix::process::parent_id() != parent { let _ = std::fs::remove_dir_all(scratch); std::process::exit(4); }
         println!("BEGIN\t{}\t{}\t{}", k, damaged(call), describe(call, &bases, profile));
         let mut bad_content = false;
         let obs = run_call(call, &mut sc, &bases, &mut bad_content);
@@ -473,7 +478,19 @@ fn worker(a: &Args, scratch: &Path, skip: usize, profile: &str) {
         }
     }
     println!("END\t{}", cases.len());
-    emit_stat("impl_runs_oracle", cases.len().saturating_sub(skip) as u64);
+    emit_stat("impl_runs_oracle", (skip..cases.len()).filter(|k| k % parts == part).count() as u64);
+}
+
+/// scratch directories of runs whose process no longer exists (killed by a timeout)
+fn remove_stale_scratch(cache: &Path, prefix: &str) {
+    if let Ok(rd) = std::fs::read_dir(cache) {
+        for e in rd.filter_map(|e| e.ok()) {
+            let name = e.file_name().to_string_lossy().to_string();
+            if let Some(pid) = name.strip_prefix(prefix) {
+                if pid.parse::<u32>().is_ok() && !Path::new("/proc").join(pid).exists() { let _ = std::fs::remove_dir_all(e.path()); }
+            }
+        }
+    }
 }
 
 fn main() {
@@ -482,6 +499,7 @@ fn main() {
     let mut scratch: Option<PathBuf> = None;
     let mut skip = 0usize;
     let mut is_worker = false;
+    let (mut part, mut parts) = (0usize, 1usize);
     let mut profile = if cfg!(debug_assertions) { "dev".to_string() } else { "release".to_string() };
     let mut i = 0;
     while i < a.extra.len() {
@@ -489,52 +507,81 @@ fn main() {
             "--worker" => { is_worker = true; i += 1; }
             "--scratch" => { scratch = Some(PathBuf::from(&a.extra[i + 1])); i += 2; }
             "--skip" => { skip = a.extra[i + 1].parse().unwrap(); i += 2; }
+            "--part" => { part = a.extra[i + 1].parse().unwrap(); parts = a.extra[i + 2].parse().unwrap(); i += 3; }
             "--profile" => { profile = a.extra[i + 1].clone(); i += 2; }
             _ => { i += 1; }
         }
     }
-    if is_worker { worker(&a, &scratch.expect("--scratch"), skip, &profile); return; }
+    if is_worker { worker(&a, &scratch.expect("--scratch"), skip, part, parts, &profile); return; }
 
-    // supervisor
+    // supervisor: P workers, worker j runs the cases with index = j (mod P); the output
+    // lines are collected with their case index and printed in case order, so the run is
+    // reproducible from (seed, tier, n) whatever the scheduling.
     let verif = std::env::var("VERIF_DIR").unwrap_or_else(|_| "/verif".into());
     let dir = Path::new(&verif).join(".cache").join(format!("scratch-c43-{}", std::process::id()));
     let exe = std::env::current_exe().expect("current_exe");
-    let out = std::io::stdout();
-    let mut restarts = 0u64;
-    let mut finished = false;
-    while !finished && restarts <= 300 {
-        let mut cmd = Command::new(&exe);
-        cmd.args(["--seed", &a.seed.to_string(), "--n", &a.n.to_string(), "--tier", &a.tier, "--profile", &profile,
-                  "--worker", "--scratch", dir.to_str().unwrap(), "--skip", &skip.to_string()]);
-        if a.oracle_only { cmd.arg("--oracle-only"); }
-        let mut child = cmd.stdout(Stdio::piped()).stderr(Stdio::inherit()).spawn().expect("spawn worker");
-        let rd = BufReader::new(child.stdout.take().unwrap());
-        let mut inflight: Option<(usize, String, String)> = None;
-        for line in rd.lines() {
-            let line = match line { Ok(l) => l, Err(_) => break };
-            if let Some(rest) = line.strip_prefix("BEGIN\t") {
-                let f: Vec<&str> = rest.splitn(3, '\t').collect();
-                inflight = Some((f[0].parse().unwrap(), f[1].to_string(), f[2].to_string()));
-            } else if line.starts_with("END\t") {
-                finished = true; inflight = None;
-            } else {
-                let mut o = out.lock();
-                let _ = writeln!(o, "{}", line);
-            }
-        }
-        let status = child.wait().expect("wait");
-        if !finished {
-            match inflight {
-                Some((k, dmg, desc)) => {
-                    emit_oracle_fail(&format!("{}:process-abort", dmg), &format!("{} observed=the process was terminated ({}) — allocation failure / abort, not even a catchable panic", desc, status));
-                    skip = k + 1;
-                    restarts += 1;
+    remove_stale_scratch(&Path::new(&verif).join(".cache"), "scratch-c43-");
+    let nparts = std::thread::available_parallelism().map(|n| n.get()).unwrap_or(4).clamp(1, 8);
+    let lines: std::sync::Mutex<Vec<(usize, usize, String)>> = std::sync::Mutex::new(vec![]);
+    let restarts = std::sync::atomic::AtomicU64::new(0);
+    let failed = std::sync::atomic::AtomicBool::new(false);
+    std::thread::scope(|sc| {
+        for j in 0..nparts {
+            let (a, dir, exe, profile, lines, restarts, failed) = (&a, &dir, &exe, &profile, &lines, &restarts, &failed);
+            sc.spawn(move || {
+                let wdir = dir.join(format!("w{}", j));
+                let mut skip = 0usize;
+                let mut finished = false;
+                let mut my_restarts = 0;
+                let mut seq = 0usize;
+                while !finished && my_restarts <= 300 {
+                    let mut cmd = Command::new(exe);
+                    cmd.args(["--seed", &a.seed.to_string(), "--n", &a.n.to_string(), "--tier", &a.tier, "--profile", profile,
+                              "--worker", "--scratch", wdir.to_str().unwrap(), "--skip", &skip.to_string(),
+                              "--part", &j.to_string(), &nparts.to_string()]);
+                    if a.oracle_only { cmd.arg("--oracle-only"); }
+                    let mut child = cmd.stdout(Stdio::piped()).stderr(Stdio::inherit()).spawn().expect("spawn worker");
+                    let rd = BufReader::new(child.stdout.take().unwrap());
+                    let mut inflight: Option<(usize, String, String)> = None;
+                    let mut cur = 0usize;
+                    for line in rd.lines() {
+                        let line = match line { Ok(l) => l, Err(_) => break };
+                        if let Some(rest) = line.strip_prefix("BEGIN\t") {
+                            let f: Vec<&str> = rest.splitn(3, '\t').collect();
+                            cur = f[0].parse().unwrap();
+                            inflight = Some((cur, f[1].to_string(), f[2].to_string()));
+                        } else if line.starts_with("END\t") {
+                            finished = true; inflight = None;
+                        } else {
+                            let idx = if line.starts_with("STAT\t") { usize::MAX } else { cur };
+                            lines.lock().unwrap().push((idx, seq, line)); seq += 1;
+                        }
+                    }
+                    let status = child.wait().expect("wait");
+                    if !finished {
+                        match inflight {
+                            Some((k, dmg, desc)) => {
+                                lines.lock().unwrap().push((k, seq, format!("ORACLE_FAIL\t{}:process-abort\t{} observed=the process was terminated ({}) - allocation failure / abort, not even a catchable panic", dmg, desc, status)));
+                                seq += 1;
+                                skip = k + 1;
+                                my_restarts += 1;
+                                restarts.fetch_add(1, std::sync::atomic::Ordering::SeqCst);
+                            }
+                            None => { eprintln!("worker {} died before its first case: {}", j, status); failed.store(true, std::sync::atomic::Ordering::SeqCst); return; }
+                        }
+                    }
                 }
-                None => { let _ = std::fs::remove_dir_all(&dir); eprintln!("worker died before its first case: {}", status); std::process::exit(3); }
-            }
+                if !finished { eprintln!("worker {}: too many restarts", j); failed.store(true, std::sync::atomic::Ordering::SeqCst); }
+            });
         }
-    }
-    emit_stat("worker_restarts", restarts);
+    });
     let _ = std::fs::remove_dir_all(&dir);
-    if !finished { eprintln!("too many worker restarts"); }
+    if failed.load(std::sync::atomic::Ordering::SeqCst) { std::process::exit(3); }
+    let mut all = lines.into_inner().unwrap();
+    all.sort_by(|x, y| (x.0, x.1).cmp(&(y.0, y.1)));
+    let out = std::io::stdout();
+    let mut o = out.lock();
+    for (_, _, l) in all { let _ = writeln!(o, "{}", l); }
+    drop(o);
+    emit_stat("worker_restarts", restarts.load(std::sync::atomic::Ordering::SeqCst));
 }
